@@ -7,6 +7,18 @@ use crate::{vio, vk};
 use crate::mvec::Vec;
 use std::task::Poll;
 
+/// stand-ins for the non-PUBLISH encoders in harnesses that only write PUBLISH packets (CBMC does
+/// not see the discriminant of `Encoded` as a constant and would expand all fifteen packet
+/// encoders); reaching one of them is an assertion failure
+#[cfg(kani)]
+pub(crate) fn stub_packet_encode(_p: &codec::Packet, _buf: &mut BytePages, _size: u32) -> Result<(), error::EncodeError> {
+    panic!("unreachable: Packet encoder reached from a PUBLISH-only harness")
+}
+#[cfg(kani)]
+pub(crate) fn stub_packet_size(_p: &codec::Packet, _limit: u32) -> usize {
+    panic!("unreachable: Packet size reached from a PUBLISH-only harness")
+}
+
 fn nz(v: u16) -> num::NonZeroU16 {
     vk::assume(v != 0);
     num::NonZeroU16::new(v).unwrap()
@@ -602,7 +614,10 @@ macro_rules! register_inst {
             //@ bounds: literal number of outstanding sends per instance (0..=2, ids u16 full width, distinct); new send: any non-zero id, any expected ack type; PUBLISH with a complete 2-byte payload or streamed (declared size u32 full width) or SUBSCRIBE-style registration; peer Maximum Packet Size unlimited or 8 (encode fails)
             //@ assumes: queue invariant
             //@ mem: 16  timeout: 900
+            //@ stubs: yes
             //@ desc: registering a send: an identifier still in use is refused (PacketIdInUse) and never queued twice; a successful registration appends exactly one entry at the back, reserves the id, writes exactly one PUBLISH; a send that fails locally leaves no entry, no reserved id, no bytes and no streaming state behind
+            #[kani::stub(<codec::Packet as codec::EncodeLtd>::encode, stub_packet_encode)]
+            #[kani::stub(<codec::Packet as codec::EncodeLtd>::encoded_size, stub_packet_size)]
             fn $name() unwind(5) {
                 register_step($n)
             }
